@@ -638,6 +638,13 @@ func runEngineC(p *Prog, o *obls) {
 		if p.Fixture != strings.HasPrefix(r.typ, "fixtures/") {
 			continue
 		}
+		// the field now holds a registry type of the repository that carries its own mutex (the map and its lock were
+		// moved into one self-synchronised type): the row's lock no longer governs it; the inner fields are unlisted
+		// fields of a lock-bearing type and are checked by C4 (consistently guarded, inferred)
+		if selfGuardedField(p, fk) {
+			o.note("C1", fk, "-", "the guard table names this field, which now holds a self-synchronised type of the repository (it carries its own mutex): its inner fields are checked by C4")
+			continue
+		}
 		wanted[fk] = true
 		deepOf[fk] = r.deep
 	}
@@ -892,6 +899,56 @@ func feasiblePathTo(p *Prog, from ssa.Instruction, blocker, target func(ssa.Inst
 		return found
 	}
 	return nil
+}
+
+// selfGuardedField: the field fk ("pkg.Type.field", canonical names) exists and its type (or pointee) is a named struct
+// of the repository that has a sync.Mutex / sync.RWMutex field of its own.
+func selfGuardedField(p *Prog, fk string) bool {
+	i := strings.LastIndex(fk, ".")
+	t := p.namedByKey(fk[:i])
+	if t == nil {
+		return false
+	}
+	st, ok := t.Underlying().(*types.Struct)
+	if !ok {
+		return false
+	}
+	for j := 0; j < st.NumFields(); j++ {
+		if cFieldName(st.Field(j)) != fk[i+1:] {
+			continue
+		}
+		// only a field that was given a new type since the guard table was confirmed (the map replaced by a registry
+		// type): a field that always held a lock-bearing object is governed by its row as before
+		if p.baseline != nil {
+			if bt := p.baseline.Types[fk[:i]]; bt != nil {
+				for _, bf := range bt.Fields {
+					if bf.Name == fk[i+1:] && bf.Type == types.TypeString(st.Field(j).Type(), relQual) {
+						return false
+					}
+				}
+			}
+		} else {
+			return false
+		}
+		n := namedOf(deref(st.Field(j).Type()))
+		if n == nil || n.Obj().Pkg() == nil {
+			return false
+		}
+		path := n.Obj().Pkg().Path()
+		if !strings.HasPrefix(path, modPath) && !strings.HasPrefix(path, "fixtures") {
+			return false
+		}
+		inner, ok := n.Underlying().(*types.Struct)
+		if !ok {
+			return false
+		}
+		for k := 0; k < inner.NumFields(); k++ {
+			if tk := typeKey(inner.Field(k).Type()); tk == "sync.Mutex" || tk == "sync.RWMutex" {
+				return true
+			}
+		}
+	}
+	return false
 }
 
 // fieldGone: fk = "pkg.Type.field"; reports whether the type exists and whether it lacks a field of that (canonical) name.
